@@ -16,6 +16,6 @@ Note: the current code may already violate parts of this property for some input
 
 Your task:
 1. Read the relevant code, then make a SMALL change to the library sources (not to the tests, not to build files) that makes the library violate this property, while the tree still compiles and `make -k check` still passes completely. The change should look like something a developer could plausibly commit (a refactor, an optimisation, an off-by-one, a changed constant or comparison, a reordered pair of statements, a dropped special case ...). It must need something SPECIFIC to manifest - a particular boundary value or unusual input, a multi-step sequence of operations, a particular interleaving or crash point, or two cooperating sites that each look fine alone - and must NOT be exposed at once by ordinary use. Do not add code that detects a magic input.
-2. Write a demonstration under {d}/demo/ : a small standalone program demo.cpp (or several files) plus run.sh that builds it against this tree (headers in {d}/include, library {d}/runtime/.libs/libfix8.so, Poco libs -lPocoNet -lPocoUtil -lPocoFoundation; use -Wl,-rpath so it runs; for the unit-test schema classes link {d}/utests/.libs/libutest.so or compile what you need) and exits 0 when the property holds and non-zero when it is violated. It must exit 0 on the ORIGINAL code and non-zero on your CHANGED code - verify both yourself (use `git stash` / `git stash pop` on the source change and rebuild in between).
+2. Write a demonstration under {d}/demo/ : a small standalone program demo.cpp (or several files) plus run.sh that builds it against this tree (headers in {d}/include, library {d}/runtime/.libs/libfix8.so, Poco libs -lPocoNet -lPocoUtil -lPocoFoundation; use -Wl,-rpath so it runs; for the unit-test schema classes link {d}/utests/.libs/libutest.so or compile what you need) and exits 0 when the property holds and non-zero when it is violated. It must exit 0 on the ORIGINAL code and non-zero on your CHANGED code - verify both yourself (NEVER use `git stash`: the stash is shared with other worktrees of this repository. Instead save your change with `git diff > /tmp/mut/{pid}.mine.patch`, revert with `git checkout -- <files>`, rebuild, run the demo, then re-apply with `git apply /tmp/mut/{pid}.mine.patch` and rebuild).
 3. Write {d}/demo/patch.diff = `git diff` of the library source change only (no demo files), and {d}/demo/NOTES.md: what you changed, which clause of the property breaks, exactly what is needed for it to manifest, and the commands you ran with their observed results (make, make -k check, demo on original, demo on changed).
 Leave the worktree with the change applied and built. In your final answer give a short summary: the change, what it needs to manifest, and the demo/test results.""")
